@@ -225,7 +225,9 @@ func setDeadline(ctx context.Context, conn net.Conn) context.CancelFunc {
 
 func setWriteDeadline(ctx context.Context, conn net.Conn) context.CancelFunc {
 	cancelCtx, cancel := context.WithCancel(context.Background())
+	done := make(chan struct{})
 	go func() {
+		defer close(done)
 		select {
 		case <-ctx.Done():
 			/* #nosec */
@@ -235,7 +237,13 @@ func setWriteDeadline(ctx context.Context, conn net.Conn) context.CancelFunc {
 		case <-cancelCtx.Done():
 		}
 	}()
-	return cancel
+	return func() {
+		cancel()
+		// Wait for the watcher: left behind, it may still find the caller's
+		// context done after the call has returned and the output lock has been
+		// released, and end whatever write somebody else has in flight by then.
+		<-done
+	}
 }
 
 func negotiateSession(ctx context.Context, location, origin jid.JID, rw io.ReadWriter, state SessionState, negotiate Negotiator) (*Session, error) {
